@@ -354,9 +354,9 @@ func run(s Script, v *vt.V) {
 					}
 				case "X":
 					cancelled = true
-					cancel()
 					if !decided {
 						// members that answer upon cancellation race with the cancellation itself
+						// (who is still out is looked at BEFORE the cancellation is let loose)
 						for i := range ms {
 							if ms[i].mode == "ctx" && !ms[i].returned {
 								if ms[i].ok {
@@ -369,6 +369,7 @@ func run(s Script, v *vt.V) {
 							tolerant[-1] = true
 						}
 					}
+					cancel()
 				case "C":
 					closeReader()
 				}
